@@ -43,6 +43,15 @@ type Failure struct {
 	Expected string            `json:"expected,omitempty"`
 	Observed string            `json:"observed,omitempty"`
 	Extra    map[string]any    `json:"extra,omitempty"`
+	// History, when set, lists the programs the same process evaluated before this one: the failure
+	// only shows after them (state kept between analyses); a replay evaluates them first.
+	History []Step `json:"history,omitempty"`
+}
+
+// Step is one program of a history.
+type Step struct {
+	Family string `json:"family"`
+	Vector []int  `json:"vector"`
 }
 
 func (f *Failure) key() string { return f.Property + "|" + f.Clause + "|" + f.Sig }
